@@ -57,6 +57,7 @@ type GuardCtx struct {
 	Inv       *LenInvariants
 	extra     []Fact // edge conditions while proving a phi operand
 	opDepth   int
+	indDepth  int
 	pinv      []phiInv
 	pDone     bool
 	imp       []importedUniv
@@ -456,6 +457,37 @@ func (g *GuardCtx) intrinsic(p Poly, at *ssa.BasicBlock) []Fact {
 			}
 			if okInd && c0 != nil {
 				out = append(out, Fact{D: polySym(s).Sub(polyConst(*c0)), Why: "counting loop"})
+			}
+			// a cursor that only moves forward: phi(c0, phi + d, ...) with every d proven >= 0 where
+			// it is added (`for pos := 0; pos < len(b); { ...; pos += size }`)
+			if !okInd && g.indDepth == 0 && isIntLike(ph.Type()) {
+				var start *int64
+				fwd := true
+				nback := 0
+				for i, e := range ph.Edges {
+					if n, isC := constInt(e); isC && !ph.Block().Dominates(ph.Block().Preds[i]) {
+						n := n
+						if start == nil || n < *start {
+							start = &n
+						}
+						continue
+					}
+					bo, isB := e.(*ssa.BinOp)
+					if !isB || bo.Op != token.ADD || bo.X != ssa.Value(ph) {
+						fwd = false
+						continue
+					}
+					nback++
+					g.indDepth++
+					okD := g.prove(g.PC.Of(bo.Y), false, bo, 1)
+					g.indDepth--
+					if !okD {
+						fwd = false
+					}
+				}
+				if fwd && start != nil && nback > 0 {
+					out = append(out, Fact{D: polySym(s).Sub(polyConst(*start)), Why: "cursor that only moves forward"})
+				}
 			}
 		}
 		// x / c and x % c with constant c > 0 keep the sign of x (>= 0 when x >= 0): handled in nonNegSym
